@@ -825,7 +825,16 @@ func (b *Builder) namedStruct(depth int) (*spec.T, *spec.T) {
 	sd.U, td.U = spec.Struct(fs...), spec.Struct(ft...)
 	if twin && len(own.Fields) == 0 && len(own.AutoMap) == 0 && own.FieldLines == 0 && len(ft) > 0 {
 		// the twin must carry at least one field setting for the overlap rule to apply
-		own.Fields[ft[0].Name] = &model.FieldCfg{Ignore: true}
+		if b.coin("twin-automap-only") {
+			// ... autoMap over a member nobody needs is a field setting like any other
+			an := fmt.Sprintf("Auto%d", b.id())
+			fs = append(fs, spec.F(an, spec.Struct(spec.F(fmt.Sprintf("Zed%d", b.id()), spec.Basic("int")))))
+			sd.U = spec.Struct(fs...)
+			own.AutoMap = append(own.AutoMap, an)
+			b.label("defect:overlap-automap-only")
+		} else {
+			own.Fields[ft[0].Name] = &model.FieldCfg{Ignore: true}
+		}
 	}
 	if own != nil {
 		b.finishMethod(own, sm)
